@@ -39,7 +39,7 @@ def main():
           "quick_cmd":f"./check {pid} quick",
           "thorough_cmd":f"./check {pid} thorough",
           "evidence_file":f"/verif/evidence/{pid}.json",
-          "replay_cmd_template":"cat {path}",
+          "replay_cmd_template":"./bin/redactcheck -replay {path}",
           "engine":"redactcheck",
           "level_claimed":{"category":"other","text":text,"design_ref":ref},
           "level_note":"Trusted: go/types, go/ssa lowering, documented semantics of regexp and reflect, the abstraction assumptions printed in the evidence file. Structural necessary conditions of the property; not a behavioural proof.",
